@@ -63,6 +63,7 @@ func (fr *frame) callWithArgs(st *state, c *ssa.CallCommon, instr ssa.Instructio
 			env := fr.specEnv(st, fr.old)
 			env.vars = fr.shadowed(env.vars, instr.Block())
 			fr.evalBlock = instr.Block()
+			fr.evalPos = pos
 			for i, cl := range cls {
 				label := cl.Label
 				if label == "" {
